@@ -605,6 +605,12 @@ def generate(ctx, quick, rng, gen_stats):
         "sim": lambda: ctx.tlc_must_pass("core", "Gen_C15_Val", "Gen_C15_Val_sim.cfg", timeout=2400, deadlock=False, workers=1,
                                          simulate=nsim, depth=20, seed=ctx.seed, tag="mc+gen-values-simulate"),
     }
+    # (a) schema defaults (argument / input field defaults incl. nested objects and lists) and (c) the multi-argument field f_M
+    jobs["dfl"] = lambda: ctx.tlc_must_pass("core", "Gen_C15_Val", "Gen_C15_Val_dflt%d.cfg" % (3 if quick else 4), timeout=2400, deadlock=False,
+                                            workers=3, tag="mc+gen-values-defaults+multiarg")
+    # (d) raw astral code point in the alphabet, escaped surrogate pairs / halves as seeds
+    jobs["ast"] = lambda: ctx.tlc_must_pass("core", "Gen_C15_Str", "Gen_C15_Str_astral.cfg", timeout=1200, deadlock=False, workers=2,
+                                            tag="mc+gen-strings-astral")
     if quick:
         # lists of input objects one token deeper (the full 4-token enumeration is part of the thorough tier)
         jobs["lin"] = lambda: ctx.tlc_must_pass("core", "Gen_C15_Val", "Gen_C15_Val_LIn4.cfg", timeout=1200, deadlock=False, workers=3,
@@ -615,10 +621,11 @@ def generate(ctx, quick, rng, gen_stats):
     # ---- strings: exhaustive over the alphabet + catalogue
     g, gc = res["str"], res["cat"]
     spell = {}
-    for sp in g.printed + gc.printed:
+    for sp in g.printed + gc.printed + res["ast"].printed:
         spell[tuple(sp["text"])] = sp
     g.printed = None
     catalogue = {tuple(sp["text"]) for sp in gc.printed}
+    RENDER["spell"] = [sp for k, sp in sorted(spell.items()) if sp["js"] and (len(k) <= 3 or k in catalogue or rng.random() < 0.1)]
     gen_stats["spellings"] = len(spell)
     gen_stats["spellings_ord"] = sum(1 for s in spell.values() if s["ord"])
     gen_stats["spellings_block"] = sum(1 for s in spell.values() if s["blk"])
@@ -639,7 +646,7 @@ def generate(ctx, quick, rng, gen_stats):
     spell = None
     # ---- value structures
     vals = {}
-    for k in ("val", "lin"):
+    for k in ("val", "lin", "dfl"):
         if k in res:
             for v in res[k].printed:
                 vals[lib.sha([v["ty"], v["expr"], v["vars"]])] = v
@@ -650,12 +657,24 @@ def generate(ctx, quick, rng, gen_stats):
     gen_stats["value_cases_simulated_new"] = len(vals) - nbfs
     if nbfs == 0 or len(vals) == nbfs:
         raise lib.Inconclusive("vacuous generator: no value structures generated: %s" % gen_stats)
+    RENDER["vals"] = {lib.sha([v["ty"], v["tw"]]): (v["ty"], v["tw"]) for v in vals.values() if v["ty"] != "M" and v["tw"]["k"] != "omit"}
     for h in sorted(vals):
         v = vals[h]
         # context variation chosen by the seed: a second, independent variable $zz in the same request (none / omitted /
         # explicit null / value); Denotes(case) does not depend on it, the engine's undefined-variable tracking might
         comp = rng.choice(["none", "none", "absent", "null", "val"])
         expr, vs = v["expr"], v["vars"]
+        if v["ty"] == "M":
+            v["tw"] = OMIT      # the arguments of f_M are not one value: no JSON twin
+        if len(vs) >= 2 and rng.random() < 0.5:
+            # third context variation: two variables with the same declaration and runtime state become ONE variable used
+            # in two positions (possibly with different expected types: argument / list item / object field)
+            sig = lambda x: json.dumps([x["ty"], x["st"], x["j"], x["hasd"], x["d"]], sort_keys=True)
+            for i in range(1, len(vs)):
+                if sig(vs[i]) == sig(vs[0]):
+                    expr = rename_vars(expr, {tuple(vs[i]["name"]): vs[0]["name"]})
+                    vs = vs[:i] + vs[i + 1:]
+                    break
         if vs and rng.random() < 0.15:
             # second context variation: the client names its variables a, b, c .. (the names the engine's own variable
             # extraction / canonical renaming use) instead of v<i>; a consistent renaming does not change Denotes(case)
@@ -663,6 +682,130 @@ def generate(ctx, quick, rng, gen_stats):
             expr = rename_vars(expr, ren)
             vs = [dict(x, name=ren.get(tuple(x["name"]), x["name"])) for x in vs]
         yield {"ty": v["ty"], "expr": expr, "vars": vs, "tw": v["tw"], "comp": comp, "stratum": "val", "form": "-", "pos": comp}
+
+
+RENDER = {}
+SCALAR_LISTS = {"LInt", "LStr", "LE", "ALInt"}
+
+
+def render_cases(quick, rng):
+    """(b) the variable renderers of template data sources: (type, JSON value) pairs from the generators above."""
+    out = []
+    for sp in RENDER.get("spell", []):
+        j = E("str", sp["text"])
+        for kind in ("json", "plain", "gql"):
+            out.append({"ty": "String", "kind": kind, "j": j})
+        out.append({"ty": "LStr", "kind": "csv", "j": E("list", items=[j, E("str", cp("a"))])})
+        out.append({"ty": "LStr", "kind": "gql", "j": E("list", items=[j])})
+    pairs = [RENDER["vals"][h] for h in sorted(RENDER.get("vals", {}))]
+    cap = 2500 if quick else 40000
+    if len(pairs) > cap:
+        pairs = rng.sample(pairs, cap)
+    for ty, tw in pairs:
+        for kind in ("json", "plain", "gql"):
+            out.append({"ty": ty, "kind": kind, "j": tw})
+        if ty in SCALAR_LISTS and tw["k"] == "list":
+            out.append({"ty": ty, "kind": "csv", "j": tw})
+    for i, c in enumerate(out):
+        c["id"] = "r%07d" % i
+    return out
+
+
+def _vals(v):
+    yield v
+    for x in v["c"]:
+        yield from _vals(x)
+
+
+def render_key(c, failed, expected):
+    cls = None
+    if c["kind"] == "gql":
+        if any(x["t"] == "e" for x in _vals(expected)):
+            cls = "enum-as-string"
+        elif any(x["t"] == "s" and any(ch in (34, 92) or ch < 32 for ch in x["s"]) for x in _vals(expected)):
+            cls = "string-quote-backslash-control"
+    if cls is None:
+        f = features(c["j"])
+        order = STRING_CLASSES + ["number-exp-sign-no-fraction", "number-spelling", "structure", "null"]
+        cls = ([x for x in order if x in f] or ["plain"])[0]
+    return "%s:render-%s:%s" % ("+".join(sorted(failed)), c["kind"], cls)
+
+
+def run_render(ctx, binary, quick, rng, T):
+    cases = render_cases(quick, rng)
+    if not cases:
+        return 0
+    ip, op = ctx.path("render-cases.ndjson"), ctx.path("render-obs.ndjson")
+    lib.write_ndjson(ip, cases)
+    ctx.run_bin(binary, ["-mode", "render", "-in", ip, "-out", op], timeout=1800)
+    obs = lib.read_ndjson(op)
+    if len(obs) != len(cases):
+        raise lib.Inconclusive("render driver returned %d observations for %d cases" % (len(obs), len(cases)))
+    by_id = {o["id"]: o for o in obs}
+    rows = [{"id": o["id"], "c": {"ty": o["c"]["ty"], "kind": o["c"]["kind"], "j": o["c"]["j"]}, "valid": o["valid"], "outv": o["outv"],
+             "outtext": o["outtext"], "panic": o["panic"]} for o in obs]
+    nchunks = 6 if len(rows) > 3000 else 1
+    chunks = [c for c in (rows[i::nchunks] for i in range(nchunks)) if c]
+    paths = []
+    for i, c in enumerate(chunks):
+        p = ctx.path("rtrace-%d.ndjson" % i)
+        lib.write_ndjson(p, c)
+        paths.append(p)
+
+    def one(p):
+        return ctx.tlc("core", "Trace_C15R", "Trace_C15R.cfg", workers=1, env={"TRACE": p}, timeout=2400, deadlock=False, count=False,
+                       heap="3g", tag="trace-validation-render")
+    verdicts = {}
+    with concurrent.futures.ThreadPoolExecutor(max_workers=len(paths)) as ex:
+        for r, c in zip(ex.map(one, paths), chunks):
+            if not r.ok or r.distinct != len(c) + 1:
+                print(r.out[-3000:])
+                raise lib.Inconclusive("render trace validation did not consume the whole observation file: %s" % r.error)
+            for v in r.printed:
+                verdicts[v["id"]] = v
+    per = {}
+    for cid in sorted(verdicts):
+        v = verdicts[cid]
+        if "ModelCaseOK" in v["failed"]:
+            raise lib.Inconclusive("render case %s is not well-formed in the model" % cid)
+        o = by_id[cid]
+        key = render_key(o["c"], v["failed"], v["expected"])
+        size = (len(o["out"]), o["out"])
+        ent = per.setdefault(key, [0, None])
+        ent[0] += 1
+        if ent[1] is None or size < ent[1][0]:
+            ent[1] = (size, o, v)
+    for key in sorted(per):
+        cnt, (_, o, v) = per[key]
+        ctx.violation(key, "%s violated by the %s variable renderer: value %s of type %s rendered as %s (read back: %s%s) [%d observations]" % (
+            ", ".join(v["failed"]), o["c"]["kind"], show_expr(o["c"]["j"]), o["c"]["ty"], json.dumps(o["out"]), show_val(o["outv"]),
+            "" if o["valid"] else ", NOT VALID", cnt), {"render_case": o["c"], "observation": {k: o[k] for k in ("out", "valid", "outv", "err")},
+                                                        "failed": v["failed"], "expected": v["expected"]})
+    # strict mode on a clean sample + binding self-test
+    clean = [r for r in rows if r["id"] not in verdicts]
+    sample = clean if len(clean) <= 1500 else rng.sample(clean, 1500)
+    if sample:
+        p = ctx.path("rstrict.ndjson")
+        lib.write_ndjson(p, sample)
+        r = ctx.tlc("core", "Trace_C15R", "Trace_C15R_strict.cfg", workers=1, env={"TRACE": p}, timeout=1200, deadlock=False, count=False,
+                    heap="3g", tag="trace-validation-render-strict")
+        if not r.ok:
+            print(r.out[-2000:])
+            raise lib.Inconclusive("render strict mode disagrees with collect mode: %s" % (r.violated or r.error))
+        donor = next((x for x in clean if x["c"]["kind"] == "json" and x["outv"]["t"] == "s" and x["outv"]["s"]), None)
+        if donor:
+            bad = json.loads(json.dumps(donor))
+            bad["outv"]["s"] = bad["outv"]["s"][:-1]
+            lib.write_ndjson(p, [bad])
+            r = ctx.tlc("core", "Trace_C15R", "Trace_C15R_strict.cfg", workers=1, env={"TRACE": p}, timeout=600, deadlock=False, count=False,
+                        tag="trace-validation-render-selftest")
+            if r.violated != "Inv_Render":
+                raise lib.Inconclusive("render binding self-test: corrupted observation not rejected (%s)" % (r.violated or r.error))
+    T.render = {"cases": len(cases), "failing": len(verdicts), "signatures": {k: v[0] for k, v in per.items()},
+                "by_kind": {k: sum(1 for c in cases if c["kind"] == k) for k in ("json", "plain", "gql", "csv")}}
+    T.validated += len(rows)
+    T.executions += len(rows)
+    return len(cases)
 
 
 def load_own_findings(ctx):
@@ -801,7 +944,8 @@ def run(ctx):
                 batch, meta = [], {}
         if batch:
             process_batch(ctx, binary, batch, meta, T, rng, nb)
-        ctx.log("cases: %d  accepted by the engine: %d  (%s)" % (T.cases, T.accepted, gen_stats))
+        nr = run_render(ctx, binary, quick, rng, T)
+        ctx.log("cases: %d  accepted by the engine: %d  render cases: %d  (%s)" % (T.cases, T.accepted, nr, gen_stats))
         if T.accepted < 0.5 * T.cases:
             raise lib.Inconclusive("the engine accepted only %d of %d generated requests (e.g. %s)" % (T.accepted, T.cases, T.rejected_examples[:1]))
     # ---- verdicts: one report per failure signature (smallest failing request of the class)
@@ -844,6 +988,7 @@ def run(ctx):
         "rejected_examples": T.rejected_examples,
         "failing_observations": T.nfail,
         "failure_signatures": {k: v[0] for k, v in T.per_key.items()},
+        "renderers": getattr(T, "render", {}),
         "predicates_on_observations": PREDICATES,
         "samples": T.samples,
         "exhaustive": not quick,
